@@ -140,6 +140,20 @@ Theorem c19_sampling_smart_default : forall c payload u size,
 Proof. exact sampling_smart_default. Qed.
 Print Assumptions c19_sampling_smart_default.
 
+(* smart sampling with any category rates: the rate looked up for the decision's
+   category (eff_rate: the category's rate, else sample_rate) obeys the same two laws *)
+Theorem c19_sampling_smart_rate0 : forall c payload u size,
+  c_smart c = true -> f_le (eff_rate c payload) nv_zero = true ->
+  log c payload u size = LDropped 0.
+Proof. exact sampling_smart_rate0. Qed.
+Print Assumptions c19_sampling_smart_rate0.
+
+Theorem c19_sampling_smart_rate1 : forall c payload u size,
+  c_smart c = true -> f_le nv_one (eff_rate c payload) = true -> in_unit u ->
+  should_drop c payload u = (false, 1%nat) /\ forall d, log c payload u size <> LDropped d.
+Proof. exact sampling_smart_rate1. Qed.
+Print Assumptions c19_sampling_smart_rate1.
+
 (* ---------------- size bound ---------------- *)
 Theorem c19_size_bound : forall c payload u n b env caller draws,
   should_drop c payload u = (false, draws) ->
